@@ -218,6 +218,12 @@ def rule_p2(F):
             body = hir.strip(row["body"])
             has_break = any(n.get("k") == "break" for n in hir.walk(body))
             has_err = any((hir.result_desc(n.get("e")) or "").find("Err") >= 0 for n in hir.nodes(body, "ret"))
+            if not has_err:
+                # `return self.report_it(..)` with a helper that can only fail
+                for n in hir.nodes(body, "ret"):
+                    e_ = hir.strip(n.get("e") or {})
+                    if e_.get("k") in ("call", "mcall") and mir.always_err(F, hir.call_def(e_)):
+                        has_err = True
             empty = body.get("k") == "block" and not body.get("stmts") and body.get("expr") is None
             r.inst("parser on " + a, {"verdict": a, "break": has_break, "error": has_err, "continues": empty})
             want = {"Associativity::Right": empty, "Associativity::Left": has_break and not has_err, "Associativity::Not": has_err}
@@ -582,11 +588,18 @@ def rule_p3(F):
     pb = find_body(F, "::peek_binop", r, contains="parser::expr")
     if pb:
         seen = {}
-        for m in hir.find_match_on(pb.hir["value"], "Token::", min_arms=5):
+        tables = [(xb, m) for xb in hir.with_callees(F, pb, depth=2, same_file=True) for m in hir.find_match_on(xb.hir["value"], "Token::", min_arms=5)]
+        for xb, m in tables:
             for row in hir.table(m):
-                if not (isinstance(row["result"], str) and row["result"].startswith("BinOp::")):
+                res_ = row["result"]
+                body_ = hir.strip(row["body"])
+                if isinstance(res_, str) and "Some(" in res_ and body_.get("k") == "call" and len(body_.get("args") or []) == 1:
+                    res_ = hir.result_desc(body_["args"][0])
+                    if isinstance(res_, str) and "BinOp::" in res_:
+                        res_ = "BinOp::" + res_.split("BinOp::")[1]
+                if not (isinstance(res_, str) and res_.startswith("BinOp::")):
                     continue
-                op = row["result"].split("::")[1]
+                op = res_.split("::")[1]
                 for a in row["alts"]:
                     tok = a.split("::")[1]
                     spell = disp.get(tok)
